@@ -243,32 +243,36 @@ def run(ctx):
                     violations.append({"what": "constructor / first call outcome differs from the reference predicate",
                                        "args": v, "constructor": out, "first_call": later, "expected": spec + " / a result",
                                        "how_to_replay": "Shaper(**kwargs) with the present arguments set to small valid values, then shex_graph(string_output=True)"})
-        # call-time guards on one valid Shaper
+        # call-time guards: on a fresh Shaper and on one that has already produced shapes
+        # (a guard that only runs on the first pass of the pipeline is not "up front")
         from shexer.shaper import Shaper
         for j, c in enumerate(calls):
             for kind in ("shex", "profile"):
-                sh = Shaper(raw_graph=NT_DOC, all_classes_mode=True)
-                outf = os.path.join(env.dir, "out.txt")
-                try:
-                    if kind == "shex":
-                        sh.shex_graph(string_output=c['string_output'], output_file=outf if c['output_file'] else None,
-                                      output_format=c['output_format'], acceptance_threshold=c['th'][0] / c['th'][1],
-                                      to_uml_path=None)   # UML needs the network: presence is checked through the guard only
-                    else:
-                        sh.profile_graph(string_output=c['string_output'], output_file=outf if c['output_file'] else None)
-                    out = "ok"
-                except Exception as e:
-                    out = type(e).__name__
-                if c['to_uml_path']:
-                    continue
-                spec = "ok" if (valid_call(c) if kind == "shex" else (c['string_output'] or c['output_file'])) else "ValueError"
-                stats[(kind, spec, out)] = stats.get((kind, spec, out), 0) + 1
-                g = mres.get(("s%d" if kind == "shex" else "p%d") % j)
-                if mres and g != out and len(disagreements) < 20:
-                    disagreements.append({"what": "generated %s guard vs call" % kind, "args": c, "guard": g, "call": out})
-                if out != spec and len(violations) < 10:
-                    violations.append({"what": "%s_graph outcome differs from the reference predicate" % kind, "args": c,
-                                       "observed": out, "expected": spec})
+                for warm in (False, True):
+                    sh = Shaper(raw_graph=NT_DOC, all_classes_mode=True)
+                    if warm:
+                        sh.shex_graph(string_output=True)
+                    outf = os.path.join(env.dir, "out.txt")
+                    try:
+                        if kind == "shex":
+                            sh.shex_graph(string_output=c['string_output'], output_file=outf if c['output_file'] else None,
+                                          output_format=c['output_format'], acceptance_threshold=c['th'][0] / c['th'][1],
+                                          to_uml_path=None)   # UML needs the network: presence is checked through the guard only
+                        else:
+                            sh.profile_graph(string_output=c['string_output'], output_file=outf if c['output_file'] else None)
+                        out = "ok"
+                    except Exception as e:
+                        out = type(e).__name__
+                    if c['to_uml_path']:
+                        continue
+                    spec = "ok" if (valid_call(c) if kind == "shex" else (c['string_output'] or c['output_file'])) else "ValueError"
+                    stats[(kind, "warm" if warm else "fresh", spec, out)] = stats.get((kind, "warm" if warm else "fresh", spec, out), 0) + 1
+                    g = mres.get(("s%d" if kind == "shex" else "p%d") % j)
+                    if mres and g != out and len(disagreements) < 20:
+                        disagreements.append({"what": "generated %s guard vs call" % kind, "args": c, "warm": warm, "guard": g, "call": out})
+                    if out != spec and len(violations) < 10:
+                        violations.append({"what": "%s_graph outcome differs from the reference predicate" % kind, "args": c,
+                                           "on_a_shaper_that_already_produced_shapes": warm, "observed": out, "expected": spec})
         for f in kf:
             if F.replay(f):
                 reproduced.add(f["id"])
